@@ -179,6 +179,9 @@ def snapshot(dx):
             out['strings'][s] = x
     G = dx.get_call_graph()
     out['callgraph'] = sorted([mk2(a), mk2(b)] for a, b in G.edges())
+    # the same graph without isolated nodes: dropping nodes that have no edge cannot change the edge set
+    G2 = dx.get_call_graph(no_isolated=True)
+    out['callgraph_no_isolated'] = sorted([mk2(a), mk2(b)] for a, b in G2.edges())
     return out
 
 
@@ -276,6 +279,9 @@ def judge(which, snap, exp):
                        for e in snap['callgraph'])
         if not edges_ok:
             bad.append('call graph has an edge without a reported callee: %s' % snap['callgraph'])
+        if snap.get('callgraph_no_isolated', snap['callgraph']) != snap['callgraph']:
+            bad.append('get_call_graph(no_isolated=True) has other edges than the full call graph: %s vs %s' % (
+                snap['callgraph_no_isolated'], snap['callgraph']))
     elif which == 'C14':
         want = {}
         for kind, lst in (('r', exp['reads']), ('w', exp['writes'])):
